@@ -159,10 +159,20 @@ Definition rv_eqb (a b : rval) : bool :=
   | _, _ => false
   end.
 
+(* ReadByte and ReadBytes(1) (the memcpy path the generated Read<Alias> function of an alias of an 8-bit type takes) deliver the
+   same byte *)
+Definition one_byte_same (o1 : rop) (v1 : rval) (o2 : rop) (v2 : rval) : bool :=
+  match o1, v1, o2, v2 with
+  | RByte, VNum x, RBytes 1, VBytes [y] => x =? y
+  | _, _, _, _ => false
+  end.
+
 Fixpoint cfirst_rdiff (i : N) (a b : list (rop * rval)) : N :=
   match a, b with
   | [], [] => 0
-  | (o1, v1) :: a', (o2, v2) :: b' => if rop_eqb o1 o2 && rv_eqb v1 v2 then cfirst_rdiff (i + 1) a' b' else i + 1
+  | (o1, v1) :: a', (o2, v2) :: b' =>
+      if (rop_eqb o1 o2 && rv_eqb v1 v2) || one_byte_same o1 v1 o2 v2 || one_byte_same o2 v2 o1 v1
+      then cfirst_rdiff (i + 1) a' b' else i + 1
   | _, _ => i + 1
   end.
 
